@@ -27,6 +27,9 @@ theorem fromCode_keepValues (c : Cfg) : c.fromCode.keepValues = true := gen_keep
 
 /-! ## routing -/
 
+theorem routeMay_of_exists {c : Cfg} {s : St} {r : Route} (h : routeExists c s r = true) : routeMay c s r = true := by
+  cases r <;> simp_all [routeMay, routeExists]
+
 /-- **cancel_notice_follows_request_route.** In every reachable state, the pending cancel notice of a call whose
 request and notice are served by the same connection of the peer takes exactly the route the call itself took;
 hence whenever that route exists (and the transport does not fault the notice) the notice can be delivered —
@@ -41,7 +44,7 @@ theorem cancel_notice_follows_request_route {c : Cfg} (hk : c.keepValues = true)
   intro hex hf ht
   constructor
   · simp only [step]
-    rw [if_pos ⟨hp, hf, by rw [hr]; exact hex, ht⟩]
+    rw [if_pos ⟨hp, hf, by rw [hr]; exact routeMay_of_exists hex, ht⟩]
     split <;> rfl
   · simp only [step]
     rw [if_neg]
@@ -381,15 +384,16 @@ theorem stateless_propagate_cancels_handler :
 
 /-- Also outside the clause (observation, not claimed): when the CLIENT abandons a call whose handler has nested
 server→client calls in flight on a stateful streamable server, the nested calls end with the handler's context, but
-their notices are routed to the response stream of the abandoned request — a route that no longer exists — and are
-dropped: the client's handlers of the nested requests keep running. -/
+their notices are routed to the response stream of the abandoned request: whether such a notice still arrives is a
+race (`routeMay`); both its delivery and its loss — after which the client's handler of the nested request keeps
+running while time passes — are runs of the model.  The monitor's `routeOpen` exempts exactly this. -/
 theorem abandoned_request_stream_loses_nested_notice :
     (run (cfgNested true false) init
         [.call 0, .deliver 0, .start 0, .call 1, .deliver 1, .start 1, .tick 10, .cancel 0 false, .retire 0, .retCtx 0, .notice 0,
          .cancel 1 false, .retire 1, .retCtx 1]).map
       (fun s => ((step (cfgNested true false) s (.notice 1)).isSome,
                  (run (cfgNested true false) s [.drop 1, .tick 1000]).map fun s' => (s'.req 1, s'.hcan 1, s'.hcan 0)))
-      = some (false, some (.running, false, true)) := by decide
+      = some (true, some (.running, false, true)) := by decide
 
 /-- **inv_reachable.** The invariant of the model (see `Inv`) holds in every reachable state. -/
 theorem inv_reachable {c : Cfg} (hk : c.keepValues = true) (ls : List Label) {s : St} (h : run c init ls = some s) : Inv c s :=
